@@ -379,6 +379,11 @@ func (ex *Exec) pushEdge(fr *Frame, from, to *ssa.BasicBlock, st *State, incomin
 			if li.spec == nil || len(li.spec.AtExit) == 0 || !li.blocks[from] || li.blocks[to] {
 				continue
 			}
+			if tp := blockPos(to); li.lexStart.IsValid() && tp.IsValid() && li.lexStart <= tp && tp < li.lexEnd {
+				// a block written inside the loop that is not part of the cycle (return, panic): not an exit to the code
+				// after the loop; returns are covered by return guards
+				continue
+			}
 			name := fmt.Sprintf("%s#loop%d", funcKey(ex.top.fn), li.number)
 			fr.curLoop = li.number
 			for _, ae := range li.spec.AtExit {
@@ -496,6 +501,10 @@ func newModSet() *modSet {
 func (ex *Exec) loopModSet(fr *Frame, li *loopInfo) *modSet {
 	ms := newModSet()
 	ms.loop = li
+	freshResultCall = func(cl *ssa.Call) bool {
+		ct := ex.prog.contractFor(cl.Common().StaticCallee())
+		return ct != nil && ct.Opts["freshresult"] != ""
+	}
 	for b := range li.blocks {
 		for _, in := range b.Instrs {
 			ex.instrEffects(fr.fn, in, ms, nil, 0)
@@ -672,6 +681,37 @@ func (ex *Exec) callEffects(fn *ssa.Function, c *ssa.CallCommon, ms *modSet, bin
 		// call of a function value: closures created in this function are handled where they are created
 		if ex.isOpaqueCallback(c.Value) {
 			return
+		}
+		// a local variable that only ever holds function literals of this function: their effects
+		if ld, isLoad := c.Value.(*ssa.UnOp); isLoad && ld.Op == token.MUL {
+			if a, isAlloc := ld.X.(*ssa.Alloc); isAlloc && a.Referrers() != nil {
+				var lits []*ssa.MakeClosure
+				ok := true
+				for _, r := range *a.Referrers() {
+					switch y := r.(type) {
+					case *ssa.Store:
+						mc, isMC := y.Val.(*ssa.MakeClosure)
+						if y.Addr != a || !isMC {
+							if fnv, isFn := y.Val.(*ssa.Function); isFn && y.Addr == a && len(fnv.FreeVars) == 0 {
+								ok = false // plain function value: fall back
+							} else {
+								ok = false
+							}
+						} else {
+							lits = append(lits, mc)
+						}
+					case *ssa.UnOp, *ssa.DebugRef:
+					default:
+						ok = false
+					}
+				}
+				if ok && len(lits) > 0 {
+					for _, mc := range lits {
+						ex.closureEffects(mc, ms, binds, depth)
+					}
+					return
+				}
+			}
 		}
 		ms.allHeap = true
 		return
@@ -946,21 +986,51 @@ func (ex *Exec) havocModSet(fr *Frame, st *State, ms *modSet, tag string) {
 			}
 			continue
 		}
-		if !ms.whole[k] && ms.loop != nil && len(ms.mapAt[k]) > 0 && allLoopFresh(ms.mapAt[k], ms.loop) {
-			// every write of this map type inside the loop goes to a map made inside the loop: maps that existed
-			// when the loop was entered keep their contents
-			al := ex.allocSet(st)
-			mc := ex.mapCompsOf(ms.maps[k])
-			for _, c := range []string{mc.has, mc.val, mc.ln} {
-				old := ex.mapHeap(st, c)
-				nw := vc.fresh("Mx_"+tag, ex.compSort(c))
-				st.heap[c] = nw
-				ex.assume(st, fmt.Sprintf("(forall ((qr! Int)) (! (=> (select %s qr!) (= (select %s qr!) (select %s qr!))) :pattern ((select %s qr!))))", al, nw, old, nw))
+		if !ms.whole[k] && ms.loop != nil && len(ms.mapAt[k]) > 0 && fr != nil && !ms.allCell {
+			// every write of this map type inside the loop goes either to a map made inside the loop or to a map
+			// denoted by a loop-invariant expression: the other maps that existed when the loop was entered keep
+			// their contents
+			var stable []string
+			okAll := true
+			for _, b := range ms.mapAt[k] {
+				if loopFresh(b, ms.loop) {
+					continue
+				}
+				v, ok := ex.stableValue(fr, st, ms, b, 0)
+				t, isT := v.(Term)
+				if !ok || !isT {
+					okAll = false
+					break
+				}
+				stable = append(stable, t.S)
 			}
-			continue
+			if okAll {
+				al := ex.allocSet(st)
+				mc := ex.mapCompsOf(ms.maps[k])
+				for _, c := range []string{mc.has, mc.val, mc.ln} {
+					old := ex.mapHeap(st, c)
+					nw := vc.fresh("Mx_"+tag, ex.compSort(c))
+					st.heap[c] = nw
+					cond := sx("select", al, "qr!")
+					for _, r := range stable {
+						cond = sAnd(cond, sNot(sEq("qr!", r)))
+					}
+					ex.assume(st, fmt.Sprintf("(forall ((qr! Int)) (! (=> %s (= (select %s qr!) (select %s qr!))) :pattern ((select %s qr!))))", cond, nw, old, nw))
+				}
+				continue
+			}
 		}
 		ex.havocMapType(st, ms.maps[k], tag)
 	}
+}
+
+func blockPos(b *ssa.BasicBlock) token.Pos {
+	for _, in := range b.Instrs {
+		if p := in.Pos(); p.IsValid() {
+			return p
+		}
+	}
+	return token.NoPos
 }
 
 // allLoopFresh: is every one of these map values made inside the loop? Either a make in a loop block, or a load of a
@@ -973,6 +1043,9 @@ func allLoopFresh(bases []ssa.Value, li *loopInfo) bool {
 	}
 	return true
 }
+
+// freshResultCall is set by the program loader: does this call's static callee carry 'opt freshresult'?
+var freshResultCall func(*ssa.Call) bool
 
 func loopFresh(b ssa.Value, li *loopInfo) bool {
 	switch x := b.(type) {
@@ -991,6 +1064,9 @@ func loopFresh(b ssa.Value, li *loopInfo) bool {
 			case *ssa.Store:
 				if y.Addr != a {
 					return false // the address itself is stored somewhere
+				}
+				if cl, isCall := y.Val.(*ssa.Call); isCall && li.blocks[cl.Block()] && freshResultCall != nil && freshResultCall(cl) {
+					continue // result of a callee whose contract says it returns a newly made map
 				}
 				mk, isMake := y.Val.(*ssa.MakeMap)
 				if !isMake || !li.blocks[mk.Block()] {
